@@ -161,7 +161,7 @@ PROPS = {
     ),
     'C20': dict(
         lean_modules=['OLP.Props.C20'], namespaces=['OLP.Props.C20'],
-        required_theorems=['at_most_one_owner', 'create_needs_absent_name', 'subs_follow_parent_partial', 'sub_expires_with_parent_partial',
+        required_theorems=['executed_tx_is_validated', 'changes_need_valid_signature', 'at_most_one_owner', 'create_needs_absent_name', 'subs_follow_parent_partial', 'sub_expires_with_parent_partial',
                            'subs_follow_parent_one_tx_per_block', 'pending_sub_survives_purchase', 'sub_owner_follows_parent_fails',
                            'pending_sub_misses_renewal', 'failed_tx_changes_nothing', 'changes_need_owner_or_purchase',
                            'changes_need_root_owner_partial', 'changes_need_root_owner_reachable_partial', 'stale_sub_changed_by_previous_owner',
@@ -172,22 +172,22 @@ PROPS = {
         run=run_c20, replay=replay_olh('ons'), level='proof',
         assumptions=[
             'the ONS model (OLP/Ons/Model.lean) is a hand-written port of the seven run* handlers; it is tied to the code by the `ons` engine: every DeliverTx of every generated history is re-run by the Lean model as a stateless step (decoded registry, committed-key set, balances, fee pool, options, heights, operation -> result class + full post-state) and must agree exactly',
-            'payments are OLT amounts and the transaction signer field is the address that signed: both rules live in Validate, which DeliverTx does not call (S10); the engine probes them through CheckTx (forged owner field, VT currency: must be refused) and never delivers such transactions',
+            'DeliverTx runs Validate before the handler: the model step is Validate (signer field = address of the signing key, signature verifies, fee price >= minimum, name well-formed, payment in the chain currency, amount validity) then run*, then the fee step; signature verification itself is a boolean input (crypto is a parameter, as in C04) and the engine delivers forged-owner, wrongly signed, under-priced, non-OLT and ill-named transactions and requires their refusal on both sides (the same rules are additionally probed through CheckTx)',
             'gas metering is layer K: the used gas (or the class of a fee-step failure) observed on the implementation is an input of the model step; URI syntax (net/url.Parse + scheme list) is a boolean input computed by the harness with net/url',
             'expiry exactness is proved under the explicit hypothesis that the quotient and the new height fit in an int64 (InInt64); outside it the code wraps (KF-C20-3)',
             'sub-names follow their parent (owner, expiry) only along histories in which every purchase / renew sees all sub-names of its target in the committed tree (histSees): the code does not iterate keys written in the current block (KF-C20-1, KF-C20-2); one-transaction-per-block histories satisfy it unconditionally',
         ],
-        model_limits='nil and empty addresses are not distinguished (a JSON null owner cannot be produced by the message types\' own Marshal); names are ASCII; the division-by-zero crash for perBlockFees = 0 (not admitted by governance validation, only by a genesis file) is in the model as Err.crash but not executed on the implementation (C18 territory); write order inside one transaction (IAVL shape) is below this abstraction (C01/C09)'),
+        model_limits='balances are modelled for OLT and VT (send may pay in any registered currency); nil and empty addresses are not distinguished (a JSON null owner cannot be produced by the message types\' own Marshal); names are ASCII; the division-by-zero crash for perBlockFees = 0 (not admitted by governance validation, only by a genesis file) is in the model as Err.crash but not executed on the implementation (C18 territory); write order inside one transaction (IAVL shape) is below this abstraction (C01/C09)'),
     'C12': dict(
         lean_modules=['OLP.Props.C12'], namespaces=['OLP.Props.C12'],
         required_theorems=['pool_eq_active_plus_donations', 'pool_ge_active', 'pool_eq_active_without_donation',
                            'undelegate_effect', 'undelegate_leaves_active_now', 'negative_amounts_refused', 'undelegate_negative_raises_active',
                            'undelegate_own_active_always_succeeds',
-                           'begin_credits_exactly_log', 'paid_exactly_once_at_maturity_partial', 'never_early_or_twice_partial',
-                           'payments_nonneg_partial', 'reward_withdrawal_paid_exactly_once_at_maturity', 'reward_withdrawal_never_twice',
+                           'begin_credits_exactly_log', 'paid_exactly_once_at_maturity', 'never_early_or_twice',
+                           'payments_nonneg', 'reward_withdrawal_paid_exactly_once_at_maturity', 'reward_withdrawal_never_twice',
                            'withdraw_within_balance', 'reward_balance_accounting', 'reward_withdraw_le_accrued',
-                           'prefix_range_exact_for_maturity', 'prefix_exact_hardcoded_maturity', 'prefix_collision_devnet_maturity',
-                           's17_early_and_double_payment', 's5_negative_undelegate_history', 's5_negative_reinvest_withdraws_unaccrued',
+                           'range_reports_only_its_height', 'old_prefix_range_exact_iff', 'old_prefix_exact_for_maturity_4', 'old_prefix_collision_devnet_maturity',
+                           'old_prefix_paid_exactly_once_if_maturity_le_9', 'old_prefix_early_and_double_payment', 'sep_prefix_single_payment_at_19', 's5_negative_undelegate_history', 's5_negative_reinvest_withdraws_unaccrued',
                            's5_negative_withdraw_history', 'deliver_refines_history'],
         run=run_c12, replay=replay_olh('deleg'), level='proof',
         assumptions=[
@@ -197,7 +197,7 @@ PROPS = {
             'the fee step is outside the model: its outcome (charged amount = price x GasUsed, or failure) is an input of each correspondence step, checked for plausibility',
             "the block's delegation reward T (handleDelegationRewards' DelegationRewards, read from the block_rewards event) is an input of the BeginBlock step (its computation belongs to C13); handleBlockRewards is assumed not to return early (it would skip matureDelegationRewards; only on 'never happen by design' errors)",
             'the sign check of runUndelegate / runDeleWithdraw / runReinvest (commit 1db1c08) is the model switch Cfg.checkSign = true; its necessity is proved (counterexamples with checkSign = false, replayed on the implementation, which must refuse them)',
-            'clauses marked _partial hold for maturities 1..9 (S17: the un-separated range prefix; hard-coded maturity 4; latent known finding KF-C12-4)',
+            'the separator at the end of the pending-undelegation range prefix (commit 4adafc1, S17) is the model switch Cfg.sepPrefix = true: the maturity theorems hold for every maturity >= 1; the old prefix is kept as theorems old_prefix_* (exact iff maturity <= 9*height, double payment for 19, collision for 109200) and the real store iterator is compared with the model on colliding heights every run',
         ],
         model_limits='records are decoded values (address, height, integer); the key shapes enter through decPrefix/keyLt (decimal prefix and byte order of <height>_<addr>), tied to the real stores by the piter/rwiter steps; the fee pool, the rewards pool and validator rewards are not part of this model (C02/C13); the model branch poolMinus (pool cannot pay an undelegation) is proved unreachable (undelegate_own_active_always_succeeds) and is therefore not exercised by the correspondence'),
 }
